@@ -283,7 +283,8 @@ FASTOR_INLINE SIMDVector<int32_t,simd_abi::avx512> operator-(int32_t a, const SI
     return out;
 }
 FASTOR_INLINE SIMDVector<int32_t,simd_abi::avx512> operator-(const SIMDVector<int32_t,simd_abi::avx512> &b) {
-    return _mm512_castps_si512(_mm512_neg_ps(_mm512_castsi512_ps(b.value)));
+    // two's complement negation: flipping the sign bit (as for floats) is not integer negation
+    return _mm512_sub_epi32(_mm512_setzero_si512(),b.value);
 }
 
 FASTOR_INLINE SIMDVector<int32_t,simd_abi::avx512> operator*(const SIMDVector<int32_t,simd_abi::avx512> &a, const SIMDVector<int32_t,simd_abi::avx512> &b) {
@@ -608,7 +609,8 @@ FASTOR_INLINE SIMDVector<int32_t,simd_abi::avx> operator-(int32_t a, const SIMDV
     return out;
 }
 FASTOR_INLINE SIMDVector<int32_t,simd_abi::avx> operator-(const SIMDVector<int32_t,simd_abi::avx> &b) {
-    return _mm256_castps_si256(_mm256_neg_ps(_mm256_castsi256_ps(b.value)));
+    // two's complement negation: flipping the sign bit (as for floats) is not integer negation
+    return _mm256_sub_epi32x(_mm256_setzero_si256(),b.value);
 }
 
 FASTOR_INLINE SIMDVector<int32_t,simd_abi::avx> operator*(const SIMDVector<int32_t,simd_abi::avx> &a, const SIMDVector<int32_t,simd_abi::avx> &b) {
@@ -915,7 +917,8 @@ FASTOR_INLINE SIMDVector<int32_t,simd_abi::sse> operator-(int32_t a, const SIMDV
     return out;
 }
 FASTOR_INLINE SIMDVector<int32_t,simd_abi::sse> operator-(const SIMDVector<int32_t,simd_abi::sse> &b) {
-    return _mm_castps_si128(_mm_neg_ps(_mm_castsi128_ps(b.value)));
+    // two's complement negation: flipping the sign bit (as for floats) is not integer negation
+    return _mm_sub_epi32(_mm_setzero_si128(),b.value);
 }
 
 FASTOR_INLINE SIMDVector<int32_t,simd_abi::sse> operator*(const SIMDVector<int32_t,simd_abi::sse> &a, const SIMDVector<int32_t,simd_abi::sse> &b) {
